@@ -223,6 +223,7 @@ class SLE(Equilibrium, phases='ls'):
                 self._solid_mol[solute_index] + self._liquid_mol[solute_index]
             )
             self._index = slice(None)
+            self._nonzero = None # indices must be set up again by the next computed call
             self._update_solubility(solubility)
             if T_given:
                 thermal_condition.T = T
